@@ -9,6 +9,7 @@ from fractions import Fraction
 
 from .. import gen
 from .. import refmodel as M
+from .. import salt as SALT
 
 ID = "C08"
 LEVEL = "exploration"
@@ -24,7 +25,7 @@ ASSUMPTIONS = [
     "thresholds decided in exact rationals: 1/4, 7/20",
 ]
 REQUIRED = {"all": ["region:1", "region:2", "region:3", "region:4", "region:5", "on_boundary:FCR=1/4",
-                    "on_boundary:FCR=7/20", "on_boundary:|NCPR|=7/20", "after_other_queries"]}
+                    "on_boundary:FCR=7/20", "on_boundary:|NCPR|=7/20", "after_other_queries", "whitespace_presentations"]}
 NMAX = {"quick": 60, "thorough": 140}
 Q = Fraction(1, 4)
 T = Fraction(7, 20)
@@ -90,14 +91,17 @@ def judge(case, rep, S):
     nreal = 3 if (a + 3 * b + N) % 5 == 0 else 1
     for j in range(nreal):
         seq = realise(rng, a, b, N)
-        obj = S["SP"](seq)
+        if (a + 2 * b + j) % 9 == 0:
+            obj = S["SP"](SALT.present(rng, seq))           # typed with blanks / line breaks / lower case
+            rep.cnt("whitespace_presentations")
+        else:
+            obj = S["SP"](seq)
         if (a + b + j) % 4 == 0:
             rep.cnt("after_other_queries")
-            obj.get_FCR(pH=0)
-            obj.get_NCPR(pH=14)
-            obj.get_mean_net_charge(pH=0.0)
-            obj.get_fraction_positive()
-            obj.get_NCPR()
+            if N <= 40:
+                SALT.salt(S, obj, seq, rng, rep, k=1 if N > 20 else None)
+            else:
+                SALT.salt(S, obj, seq, rng, rep, k=2, cheap=True)
         try:
             got = obj.get_phasePlotRegion()
         except Exception as e:
